@@ -59,7 +59,13 @@ impl Sm9EncKey {
         let c1_bytes = &data[0..65];
         let c2 = &data[(65 + 32)..];
         let c3 = &data[65..(65 + 32)];
+        if c1_bytes[0] != 0x04 {
+            return Err(Sm9Error::InvalidPoint);
+        }
         let c1 = Point::from_bytes(c1_bytes);
+        if !c1.is_on_curve() {
+            return Err(Sm9Error::NotOnCurve);
+        }
         let w = sm9_u256_pairing(&self.de, &c1);
         let w_bytes = w.to_bytes_be();
         let mut k_append: Vec<u8> = vec![];
